@@ -13,7 +13,7 @@ Definition show_log (l: list logent) : list N := nlen l :: concat (map (fun e =>
 Definition show_packets (l: list packet) : list N := nlen l :: concat (map show_packet l).
 
 (* operations *)
-Inductive pop := PAdd (h: handler) | PRemove (id: N) | PTick (g: gres) (ans: list N) | PSend (p: packet) (ans: list N).
+Inductive pop := PAdd (h: handler) | PRemove (id: N) | PTick (gs: list gres) (ans: list N) | PSend (p: packet) (ans: list N).
 Definition parse_gres (l: list N) : option (gres * list N) :=
   match l with
   | 0 :: r => match parse_packet r with Some (p, r') => Some (GPacket p, r') | None => None end
@@ -21,11 +21,15 @@ Definition parse_gres (l: list N) : option (gres * list N) :=
   | 2 :: c :: r => Some (GErr c, r)
   | _ => None
   end.
+Fixpoint parse_gets0 (ls: list (list N)) : option (list gres) :=
+  match ls with [] => Some [] | l :: t => match parse_gres l, parse_gets0 t with Some (g, []), Some gs => Some (g :: gs) | _, _ => None end end.
 Definition parse_op (l: list N) : option pop :=
   match l with
   | 0 :: label :: cap :: n :: r => match parse_packets_n (N.to_nat n) r with Some (ps, []) => Some (PAdd (mkH label (negb (cap =? 0)) ps)) | _ => None end
   | [1; id] => Some (PRemove id)
-  | 2 :: r => match parse_gres r with Some (g, ans) => Some (PTick g ans) | None => None end
+  | 2 :: n :: r => match parse_lists_n (N.to_nat n) r with
+                   | Some (gls, ans) => match parse_gets0 gls with Some gs => Some (PTick gs ans) | None => None end
+                   | None => None end
   | 3 :: r => match parse_packet r with Some (p, ans) => Some (PSend p ans) | None => None end
   | _ => None
   end.
@@ -37,13 +41,14 @@ Definition pro_split (case: list N) : option (N * list pop) :=
   | _ => None
   end.
 
+(* result, handler log, what went to the link, and how many incoming results are still queued *)
 Definition show_dispatch (r: out unit perr * list logent * iface) : list N :=
-  let '(ret, log, i) := r in show_pret ret ++ show_log log ++ show_packets (i_sent i).
+  let '(ret, log, i) := r in show_pret ret ++ show_log log ++ show_packets (i_sent i) ++ [nlen (i_gets i)].
 Definition op_obs (own: N) (t: table) (o: pop) : table * list N :=
   match o with
   | PAdd h => let '(t', id) := add_handler t h in (t', [0; id])
   | PRemove id => let '(t', r) := remove_handler t id in (t', show_pret r)
-  | PTick g ans => (t, show_dispatch (tick own t (mkI [g] ans [])))
+  | PTick gs ans => (t, show_dispatch (tick own t (mkI gs ans [])))
   | PSend p ans => (t, show_dispatch (send_packet own t p (mkI [] ans [])))
   end.
 Fixpoint pro_run (own: N) (t: table) (ops: list pop) : list (list N) :=
@@ -76,8 +81,9 @@ Fixpoint pro_walk (own: N) (t: table) (ops: list pop) (obs: list (list N)) (step
           let t' := match remove id t with Some t' => t' | None => t end in
           let '(vs, fs) := pro_walk own t' ops' obs' (step + 1) in
           ((17, x) :: vs, if list_eqb x expect then fs else (17, [172; step; id]) :: fs)
-      | PTick g ans =>
-          let expect := show_dispatch (tick own t (mkI [g] ans [])) in
+      | PTick gs ans =>
+          let g := match gs with g0 :: _ => g0 | [] => GNone end in
+          let expect := show_dispatch (tick own t (mkI gs ans [])) in
           let '(vs, fs) := pro_walk own t ops' obs' (step + 1) in
           (* a delivery to the own address / broadcast also reveals which handlers are live (C17) *)
           let reveals := match g with GPacket p => owned_addr own p | _ => false end in
